@@ -18,11 +18,13 @@ EXTENDS Integers, Sequences, FiniteSets, TLC, Json
 
 CONSTANTS Procs, Slots, Vers, Keys, Stores, MaxOps, FixD6, FixD13, FixD5c, FixD20, Gen,
           Aliased,   \* Memory objects (elements of Stores) that are another spelling of the directory of store 1 (relative path, symlink)
+          Homonyms,  \* Memory objects spelled like store 1 although they are OTHER directories (one relative path used from two working directories)
           FixD21     \* TRUE: the writers table is keyed by the real directory; FALSE: by the spelling (D21)
 
 Objs == Procs \X Slots
 Ph(st) == IF st \in Aliased THEN 1 ELSE st          \* the directory behind a Memory object
-Wk(st) == IF FixD21 THEN Ph(st) ELSE st              \* key of _FUNCTION_CODE_WRITERS
+Spell(st) == IF st \in Homonyms THEN 1 ELSE st
+Wk(st) == IF FixD21 THEN Ph(st) ELSE Spell(st)       \* key of _FUNCTION_CODE_WRITERS
 
 VARIABLES
   ocode,    \* [Objs -> Vers \cup {0}]   code version run by the object, 0 = not defined
